@@ -153,6 +153,17 @@ func thriftGroups(tier string) []group {
 		}
 		gs = append(gs, group{"thrift-canned/" + op.name, func(tier string, y func(core.Case) bool) { enumCannedThrift(op, y) }})
 	}
+	// the response base (thrift/base) read out of the message into the caller's *base.BaseResp
+	for _, op := range baseRespOps() {
+		op := op
+		gs = append(gs, group{"thrift-base/" + op.name, func(tier string, y func(core.Case) bool) {
+			for _, sd := range baseRespSeeds() {
+				if !enumThriftSeedOp(op, sd, y) {
+					return
+				}
+			}
+		}})
+	}
 	for part, nm := range []string{"typed-roots", "descriptor", "readers", "all-bytes-len2"} {
 		part := part
 		gs = append(gs, group{"thrift-short/" + nm, func(tier string, y func(core.Case) bool) { enumShort(tier, part, y) }})
